@@ -5,6 +5,7 @@
    are regenerated from textx/model.py and textx/scoping/providers.py on every run. *)
 From TxV Require Import Core.Base Model.PegSyntax Model.Peg Model.Build.
 From TxV Require Import Model.ErrLoc Gen.SrcLoc Proofs.ErrLocProofs Proofs.ErrLocSrcProofs Model.ErrLocLoad Proofs.ErrLocLoadProofs.
+From TxV Require Import Proofs.PegTerm Proofs.ErrLocBoundProofs.
 
 (* Arpeggio's pos_to_linecol (cached line ends + bisect) is exact for EVERY text and offset *)
 Theorem C28_linecol_exact : forall t pos, pos <= length t ->
@@ -105,3 +106,29 @@ Print Assumptions C28_syntax_composed_nonvacuous.
 Theorem C28_linecol_models_agree : forall input p, Build.pos_to_linecol input p = ErrLoc.pos_to_linecol input p.
 Proof. exact linecol_models_agree. Qed.
 Print Assumptions C28_linecol_models_agree.
+
+(* the same without the bound on p: for every grammar table, config, memo flag, fuel, file list and every oracle
+   whose matches stay inside the text (orc_sane, Proofs/PegTerm.v), a rejected parse of model m yields exactly the
+   error located at m's file name and line/col of the interpreter's failure position (which lies inside the
+   text: Proofs/PegErrPos.v run_syntaxerr_in_text); every other outcome yields no syntax error *)
+Theorem C28_syntax_error_at_interpreter_failure_sane : forall g c orc memo fuel fs m,
+  orc_sane g (s_text (file_at fs m)) orc ->
+  match Peg.run g c orc memo fuel (s_text (file_at fs m)) with
+  | SyntaxErr p => load_syntax_error syntax_desc g c orc memo fuel fs m = Some (located_at fs m p)
+  | _ => load_syntax_error syntax_desc g c orc memo fuel fs m = None
+  end.
+Proof. exact load_syntax_error_sane. Qed.
+Print Assumptions C28_syntax_error_at_interpreter_failure_sane.
+
+(* non-vacuity: the oracle without matches is sane for the grammar of C28_syntax_composed_nonvacuous, whose
+   parse of "\na\n b" is rejected at offset 4 *)
+Example C28_syntax_sane_nonvacuous :
+  let g := mkGrammar [mkNode KSeq [1;2] None false [] false false None None;
+                      mkNode (KStr [97]%N None) [] None false [] false false None None;
+                      mkNode KEOF [] None false [] false false None None] 0 None in
+  let fs := [ {| s_name := Some [109]%N; s_text := [10;97;10;32;98]%N |} ] in
+  let orc := fun (_ _ : nat) => @None nat in
+  orc_sane g (s_text (file_at fs 0)) orc /\
+  Peg.run g (mkConfig true [32;10]%N) orc false 20 (s_text (file_at fs 0)) = SyntaxErr 4.
+Proof. cbv zeta. split; [split; intros; discriminate | vm_compute; reflexivity]. Qed.
+Print Assumptions C28_syntax_sane_nonvacuous.
